@@ -135,8 +135,18 @@ func (k Keeper) CalculateBatchAllocation(ctx context.Context, auction types.Auct
 		mInfo.RefundMap[bidder] = reservedAmtByBidder[bidder].Sub(bidderRes.PayingAmount)
 	}
 
+	// Flag exactly the bids matched in this calculation: a bid matched at a
+	// previous end time may have been outbid since and must lose its flag.
+	matchedBidIds := map[uint64]struct{}{}
 	for _, bid := range matchRes.MatchedBids {
-		bid.SetMatched(true)
+		matchedBidIds[bid.Id] = struct{}{}
+	}
+	for _, bid := range bids {
+		_, isMatched := matchedBidIds[bid.Id]
+		if bid.IsMatched == isMatched {
+			continue
+		}
+		bid.SetMatched(isMatched)
 		if err := k.Bid.Set(ctx, collections.Join(bid.AuctionId, bid.Id), bid); err != nil {
 			return mInfo, err
 		}
